@@ -102,6 +102,8 @@ pub struct Agg {
     pub migrations: u64,
     pub polls_after_end: u64,
     pub abandoned_iters: u64,
+    pub forgotten_iters: u64,
+    pub debug_fmts: u64,
     pub recompiles: u64,
     pub stalled: u64,
     pub cold_runs: u64,
@@ -160,6 +162,8 @@ impl Agg {
         self.migrations += r.migrations;
         self.polls_after_end += r.polls_after_end;
         self.abandoned_iters += r.abandoned_iters;
+        self.forgotten_iters += r.forgotten_iters;
+        self.debug_fmts += r.debug_fmts;
         self.recompiles += r.recompiles;
         self.stalled += r.stalled;
         if r.cold {
@@ -741,6 +745,8 @@ pub fn check(tier_name: &str, base_seed: u64) -> Outcome {
                 "F2_caller_crash_fired": a.crashes_fired,
                 "F2_caller_crash_planned": a.crashes_planned,
                 "F3_iterator_abandoned": a.abandoned_iters,
+                "F3_iterator_leaked_with_mem_forget": a.forgotten_iters,
+                "debug_format_of_live_object": a.debug_fmts,
                 "F4_poll_after_exhaustion": a.polls_after_end,
                 "F5_drop_and_recompile": a.recompiles,
                 "F5_arc_address_reused": a.addr_reuse,
